@@ -5,6 +5,34 @@ _REG = None
 
 PROPS = ["C%02d" % i for i in range(1, 21)]
 
+# modules each property is anchored in: (modules, floor of functions examined, floor of self-attribute reads)
+GEN_SCOPE = {
+    "C01": (("removeOverlap", "force", "vpsc", "node"), 70, 150),
+    "C02": (("removeOverlap", "force", "vpsc", "node"), 70, 150),
+    "C03": (("removeOverlap", "force", "vpsc", "node"), 70, 150),
+    "C04": (("distributor", "force", "node"), 35, 60),
+    "C05": (("vpsc",), 45, 80),
+    "C06": (("distributor", "force", "node", "removeOverlap"), 38, 60),
+    "C07": (("timeline", "renderer", "utils", "node"), 70, 150),
+    "C08": (("timeline", "renderer", "node"), 65, 150),
+    "C09": (("timeline", "renderer", "utils"), 50, 140),
+    "C10": (("timeline", "renderer", "utils"), 50, 140),
+    "C12": (("scale",), 45, 50),
+    "C13": (("scale",), 45, 50),
+    "C14": (("scale", "d3_time"), 55, 50),
+    "C15": (("scale", "d3_time"), 55, 50),
+    "C16": (("scale", "d3_time"), 55, 50),
+    "C17": (("d3_time",), 12, 10),
+    "C19": (("tex",), 5, 0),
+    "C20": (("utils",), 5, 0),
+}
+GEN_NOTE = (
+    "  GEN.DEFINED / GEN.ATTRS over every function of the modules the property is anchored in: every local is definitely "
+    "assigned on all paths before each use, every name resolves, every attribute read or method called through self exists "
+    "with a matching signature; plus the source-level crash lints GEN.TYPED-ATTRS, GEN.SUPERINIT, GEN.STRARITH, GEN.BUILTIN-ARGS, "
+    "GEN.DICTKEY, GEN.ATTR-ORDER (a NameError / AttributeError / TypeError there breaks the property for every input that reaches it)."
+)
+
 
 def registry():
     global _REG
@@ -17,9 +45,16 @@ def registry():
                 if e.name == "sa.rules.%s" % p.lower():
                     continue
                 raise
+            rules = list(m.RULES)
+            expl = m.EXPLANATION
+            if p in GEN_SCOPE and not any(getattr(r, "rule_id", "") == "GEN.DEFINED" for r in rules):
+                from .c11 import gen_for
+
+                rules.append(gen_for(*GEN_SCOPE[p]))
+                expl = expl + GEN_NOTE
             _REG[p] = {
-                "rules": list(m.RULES),
-                "explanation": m.EXPLANATION,
+                "rules": rules,
+                "explanation": expl,
                 "assumptions": list(getattr(m, "ASSUMPTIONS", [])),
             }
     return _REG
